@@ -501,11 +501,15 @@ class Unit:
                     if q >= len(m) or m[q] != "=":
                         continue
                     patt = m[j:q].split(":")[0]
-                    if re.search(r"\b%s\b" % re.escape(nm), patt):
+                    if re.search(r"\b%s\b" % re.escape(nm.split("#")[0]), patt):
                         hits.append(k.start())
-                if len(hits) != 1:
+                # `name#k`: the k-th `let` binding that name (same name bound in several branches)
+                want = int(nm.split("#")[1]) if "#" in nm else None
+                if want is None and len(hits) != 1:
                     raise LostAnchor("%s: `let %s` anchor of %s matches %d statements" % (it.file, nm, it.name, len(hits)))
-                inserts.append((hits[0], "entry", ac.raw["entry"], None))
+                if want is not None and want > len(hits):
+                    raise LostAnchor("%s: `let %s` anchor of %s: only %d such statements" % (it.file, nm, it.name, len(hits)))
+                inserts.append((hits[(want or 1) - 1], "entry", ac.raw["entry"], None))
             for nm, ac in getattr(c, "after_lets", {}).items():
                 # anchor: the `let` statement (at any depth) whose pattern binds identifier nm
                 hits = []
